@@ -12,14 +12,16 @@ RULE = ("cases = budget-enforcing manager (alone, fed adversarial utility stream
         "the history of (query result -> update) is recorded at the client boundary and the cumulative number of granted labels is "
         "compared with the bound at EVERY prefix n: b*n + n/w + b*w + 1 (Zliobaite-style managers and the strategies built on them), "
         "b*n + 1 (DensityBasedSplitBudgetManager / StreamDensityBasedAL), b*n (PeriodicSampling, StreamRandomSampling("
-        "allow_exceeding_budget=False)); hook: u_t_ <= budget_*w + 1 after every update of a Zliobaite manager. Non-trivial = "
+        "allow_exceeding_budget=False)); hook: u_t_ <= budget_*w + 1 after every update of a Zliobaite manager; shadow accounting "
+        "model: the manager's running estimate (u_t_, or u_/t_, or observed_/queried_samples_) after every update must equal the "
+        "sequential recurrence u <- u*(w-1)/w + granted computed by the monitor over the committed decisions. Non-trivial = "
         "granting every instance would exceed the bound at some prefix and at least one request was refused; distinct by "
         "(object, budget, w, chunking, stream kind).")
 ASSUMPTIONS = [
     "input validation may reject infinite utilities (ValueError): such a stream is skipped, not judged",
     "float slack of 1e-9 on the bound",
 ]
-REQUIRED_MONITORS = ["C04.prefix-bound-checker", "C04.u_t-hook"]
+REQUIRED_MONITORS = ["C04.prefix-bound-checker", "C04.u_t-hook", "C04.accounting-shadow-model"]
 BUDGETS = [0.01, 0.05, 0.1, 0.3, 0.5, 0.9, 1.0]
 WINDOWS = [1, 2, 5, 20, 100, 1000]
 ZL_STRATS = {"FixedUncertainty": "FixedUncertaintyBudgetManager", "VariableUncertainty": "VariableUncertaintyBudgetManager",
@@ -107,6 +109,8 @@ def run_case(desc):
     comp = name
     refused = 0
     max_ut = 0.0
+    shadow = {"n": 0, "q": 0, "u_t": 0.0}
+    viol_kinds = {}
     for a, c_end in chunks:
         cand = X[a:c_end]
         try:
@@ -132,6 +136,26 @@ def run_case(desc):
             return {"status": "skip", "skip_reason": "update raised %s (judged by C10)" % type(ex).__name__}
         granted[a + idx[(idx >= 0) & (idx < c_end - a)]] += 1
         refused += (c_end - a) - len(idx)
+        # ---- shadow accounting model over the committed decisions of this chunk
+        acct = obj if is_bm else getattr(obj, "budget_manager_", obj)
+        for j in range(a, c_end):
+            shadow["n"] += 1
+            shadow["q"] += int(granted[j])
+            if hasattr(acct, "w"):
+                shadow["u_t"] = shadow["u_t"] * ((acct.w - 1) / acct.w) + granted[j]
+        contracts.count("C04.accounting-shadow-model")
+        if hasattr(acct, "u_t_") and not viol_kinds.get("acct"):
+            if abs(float(acct.u_t_) - shadow["u_t"]) > 1e-9 * max(1.0, abs(shadow["u_t"])):
+                viol_kinds["acct"] = True
+                viol.append({"component": comp, "kind": "accounting-differs-from-sequential-model", "trigger": "any",
+                             "detail": "after instance %d (chunk of %d, w=%s): u_t_=%.6f but the recurrence over the committed grants gives %.6f"
+                                       % (c_end, c_end - a, acct.w, float(acct.u_t_), shadow["u_t"])})
+        for name_, key in (("u_", "q"), ("t_", "n"), ("queried_samples_", "q"), ("observed_samples_", "n")):
+            holder = acct if hasattr(acct, name_) else (obj if hasattr(obj, name_) else None)
+            if holder is not None and not viol_kinds.get(name_) and float(getattr(holder, name_)) != float(shadow[key]):
+                viol_kinds[name_] = True
+                viol.append({"component": comp, "kind": "accounting-differs-from-sequential-model", "trigger": "any",
+                             "detail": "after instance %d: %s=%s but the history has %s=%d" % (c_end, name_, getattr(holder, name_), key, shadow[key])})
         # hook invariant on the manager's running estimate
         bm = obj if is_bm else getattr(obj, "budget_manager_", None)
         if kind == "zl" and bm is not None and hasattr(bm, "u_t_"):
@@ -145,6 +169,7 @@ def run_case(desc):
         elif kind != "zl":
             contracts.count("C04.u_t-hook")   # not applicable for this manager: counted as evaluated-vacuously
     cum = np.cumsum(granted)
+    # (the shadow model was compared after every update inside the loop)
     ns = np.arange(1, n + 1)
     bm = obj if is_bm else getattr(obj, "budget_manager_", None)
     w_eff = getattr(bm, "w", w) if bm is not None else w
